@@ -8,7 +8,7 @@ import SxVerif.Proofs.FillCli
 
 namespace SxVerif.Proofs.Fill
 open SxVerif.Frame (Bytes)
-open SxVerif.Fill SxVerif.Spec.Fill
+open SxVerif.Fill SxVerif.Spec.Fill SxVerif.Generated
 
 /-- the 16-byte IPv4-mapped form of an address is read as the address -/
 theorem to4_mapped (a : Bytes) (h : a.length = 4) : to4 ([0, 0, 0, 0, 0, 0, 0, 0, 0, 0, 0xff, 0xff] ++ a) = some a := by
@@ -70,5 +70,16 @@ theorem refused_icmp (o : IPOpts) (t c : Nat) (r : Req) (a b : Nat)
     rcases h with h | h
     · by_cases h' : r.dstMAC.length = 6 <;> simp [h, h']
     · simp [h]
+
+/-- `tcp --flags names`: the header carries exactly the named flags -/
+theorem tcp_cli (vpn : Bool) (names : List String) (r : Req) (rndId rndPort rndSeq : Nat)
+    (h : ∀ n ∈ names, n ∈ tcpFlagTable.map (·.1))
+    (hr : ReqOK vpn r.srcIP r.dstIP r.srcMAC r.dstMAC r.dstPort)
+    (hid : rndId < 65535) (hp : rndPort < 28232) (hs : rndSeq < 2 ^ 32) :
+    ∃ frame t, fillTCP vpn (flagsOfNames tcpFlagTable names) r rndId rndPort rndSeq = .ok frame ∧
+      tcpFields ((datagram vpn frame 52).drop 20) = some t ∧ t.flags = flagSet names := by
+  obtain ⟨e, hlt⟩ := cli_flags names h
+  obtain ⟨frame, hok, -, -, -, -, ht, -⟩ := tcp_ok vpn (flagsOfNames tcpFlagTable names) r rndId rndPort rndSeq hr (e ▸ hlt) hid hp hs
+  exact ⟨frame, _, hok, ht, e⟩
 
 end SxVerif.Proofs.Fill
